@@ -41,6 +41,9 @@ REG = {
  'C05': ('model_checking', 'TLA+ reference semantics of multi-source operators (Multi.tla): every tuple of source scripts x every arrival order enumerated by TLC; replay on the real operators',
          'Multi.tla defines one arrival processed to quiescence for merge / combine-latest / zip / race / take-until / skip-until / buffer-when / sample-when / throttle-when (creation and operator forms, 2-3 sources); the nondeterministic choice of the emitting source makes TLC enumerate EVERY interleaving of the source scripts; each behaviour is replayed over controllable sources and output, IsClosed and per-source subscribe/teardown counters are compared after each arrival. The concurrent clause is exercised by the park-mode schedule replay and free-running drivers of C01/C02 (grammar/overlap) only.',
          'sequential clause exhaustive within bounds (<= 3 notifications per source); concurrent clause: only contract-level oracles so far; concat/flat-map/group-by/window-when not yet in Multi.tla', '6/C05'),
+ 'C10': ('model_checking', 'TLA+ sequential definition of the 5 subjects enumerated by TLC and replayed; linearizability of real concurrent histories decided by TLC (silent linearization steps)',
+         'SubjectSeq.tla is the sequential definition; TLC enumerates every operation sequence inside the bounds for 11 kind/buffer configurations and the real subjects are driven through each (deliveries per subscriber and the 5 getters compared after every operation). SubjectLin.tla accepts a recorded concurrent history iff some placement of one silent linearization step per call explains every subscriber\'s observations; histories come from free-running threads with yield hooks and from park-mode schedule replay (one preemption at every hook point).',
+         'bounds: <= 6 operations sequentially; 2-4 threads x <= 5 calls concurrently; one relaxation (a notification overlapping an Unsubscribe(i) may be cut for i)', '6/C10'),
 }
 NA_REASON = 'check not built yet (framework under construction); planned, see DESIGN.md section 6'
 
